@@ -658,7 +658,10 @@ class WeightedGraph(Graph):
         the resulting WeightedGraph
         """
         A = self.to_coo_matrix().tocsr().tocoo()
-        return wgraph_from_coo_matrix(A)
+        # keep the stored entries (zero weights included) so that edges and
+        # weights stay aligned
+        edges = np.vstack((A.row, A.col)).T
+        return WeightedGraph(self.V, edges, A.data)
 
     def dijkstra(self, seed=0):
         """ Returns all the [graph] geodesic distances starting from seed
